@@ -356,6 +356,10 @@ def run(verbose=False):
         changed += extra.get("changed", [])
     except ImportError:
         pass
+    import translate_agg
+    agg = translate_agg.run(GEN, write_if_changed)
+    changed += agg.get("changed", [])
+    extra["agg"] = agg
     import translate_sites
     sites = translate_sites.run(GEN, write_if_changed)
     changed += sites.get("changed", [])
